@@ -19,6 +19,7 @@ structure Inv (KB : Nat) (st : St V) : Prop where
   lo : ∀ e ∈ content st, separator st ≤ e.key
   hi : ∀ c, st.cutoff = some c → ∀ e ∈ content st, e.key < c
   sepnil : den st.base st.ops = [] → st.sepOv = none
+  cutbase : st.cutoff.isSome = true → st.base.isSome = true
 
 theorem separator_congr {st st' : St V} (h1 : st'.sepOv = st.sepOv) (h2 : st'.base.map (·.sep) = st.base.map (·.sep)) :
     separator st' = separator st := by
@@ -171,6 +172,8 @@ theorem ingest_spec (KB : Nat) (st : St V) (k : Nat) (ch : Option (V × Bool)) (
     intro e he; rw [ko.rest_eq] at he; simpa using (List.mem_filter.1 he).2
   have hsep1 : separator st1 = separator st := separator_congr ko.sepOv ko.sep
   have hc_sorted := write1_sorted hinv.sorted k ch
+  have hcb1 : st1.cutoff.isSome = true → st1.base.isSome = true := by
+    intro h; rw [ko.isSome_eq]; exact hinv.cutbase (by rw [← ko.cutoff]; exact h)
   have hmem : ∀ e ∈ write1 (content st) k ch, separator st ≤ e.key ∧ e.size ≤ MAXV ∧ e.key < KB ∧
       (∀ c, st.cutoff = some c → e.key < c) := by
     intro e he
@@ -182,7 +185,7 @@ theorem ingest_spec (KB : Nat) (st : St V) (k : Nat) (ch : Option (V × Bool)) (
     have hres : ingest st k none = (st1, log) := by simp [ingest, ingestG, hpair]
     rw [hres]
     refine ⟨hcont1, hlogeq, ?_, fun e he => Nat.le_of_lt (hden1_le e he), ko.cutoff, ko.sep, ko.ents⟩
-    refine ⟨ko.wf, ko.gauge, ko.low_le, by rw [hcont1]; exact hc_sorted, ?_, ?_, ?_, ?_, ?_⟩
+    refine ⟨ko.wf, ko.gauge, ko.low_le, by rw [hcont1]; exact hc_sorted, ?_, ?_, ?_, ?_, ?_, hcb1⟩
     · intro e he; rw [hcont1] at he; exact (hmem e he).2.1
     · intro e he; rw [hcont1] at he; exact (hmem e he).2.2.1
     · intro e he; rw [hcont1] at he; rw [hsep1]; exact (hmem e he).1
@@ -206,7 +209,7 @@ theorem ingest_spec (KB : Nat) (st : St V) (k : Nat) (ch : Option (V × Bool)) (
       rw [write1_append_below hbelow, ko.den_eq, ko.rest_eq]
       simp [write1]
     refine ⟨hcont2, hlogeq, ?_, ?_, ko.cutoff, ko.sep, ko.ents⟩
-    · refine ⟨?_, ?_, ko.low_le, by rw [hcont2]; exact hc_sorted, ?_, ?_, ?_, ?_, ?_⟩
+    · refine ⟨?_, ?_, ko.low_le, by rw [hcont2]; exact hc_sorted, ?_, ?_, ?_, ?_, ?_, hcb1⟩
       · exact wf_append.2 ⟨ko.wf, by intro op hop; simp at hop; subst hop; trivial⟩
       · simp only [hden2, gaugeOf_append, ko.gauge]; rfl
       · intro e he; rw [hcont2] at he; exact (hmem e he).2.1
